@@ -71,8 +71,9 @@ AllKinds == {"eth", "vlan", "llc", "mpls", "arp", "ip4", "ip6", "udp", "tcp", "i
              "timex", "igmp", "gre", "vxlan", "dhcp", "dns", "rip", "lldp", "eapol", "eap", "icmp6",
              "echo6", "unreach6", "toobig", "timex6", "rs", "ra", "ns", "na"}
 \* the least number of bytes from which a layer of kind k can be parsed at all
-MinNeed(k) ==
-  LET S == {Need(L(k, v)) : v \in Vars(k)} IN CHOOSE x \in S : \A y \in S : x <= y
+MinNeedF == [k \in AllKinds |->
+               LET S == {Need(L(k, v)) : v \in Vars(k)} IN CHOOSE x \in S : \A y \in S : x <= y]
+MinNeed(k) == MinNeedF[k]
 RECURSIVE SumNeed(_)
 SumNeed(ch) == IF ch = <<>> THEN 0 ELSE MinNeed(ch[Len(ch)]) + SumNeed(SubSeq(ch, 1, Len(ch) - 1))
 \* dispatch edges of the grammar, any variant (bounds the model-checking run only; recorded runs of
@@ -139,7 +140,7 @@ ADump   == AStep("dump", "pack")
 ARepack == AStep("pack", "done")
 
 ALayerLegal == \E k \in (IF chain = <<>> THEN {"eth"} ELSE MayFollow(chain[Len(chain)])) : ALayer(k)
-ARestSome == \E s \in 0..n : \E ln \in 0..n : ARest(s, ln)
+ARestSome == \E s \in SumNeed(chain)..n : \E ln \in 0..(n - s) : ARest(s, ln)
 NextAny == AOffer \/ ALayerLegal \/ ARestSome \/ APrint \/ ADump \/ ARepack
 SpecAny == InitAny /\ [][NextAny]_vars /\ WF_vars(NextAny)
 
